@@ -151,6 +151,17 @@ def replay_lanczos(rep, light=False, traces=None):
                         bad('psi-at-exhaustion', defect=parallel_defect(x, gvec))
                     elif rel(Aeff @ x - (E + sigma) * x) > tol:
                         bad('eigen-residual', res=rel(Aeff @ x - (E + sigma) * x))
+                if ovs and sigma and nc == 2:
+                    # the operator handed to the engine must still be the same operator afterwards
+                    with warnings.catch_warnings():
+                        warnings.simplefilter('ignore')
+                        H2 = make_H()
+                        kb.LanczosGroundState(H2, B.vec(), opts).run()
+                        E2, psi2, N2 = kb.LanczosGroundState(H2, B.vec(), opts).run()
+                    rep.count('LanczosGroundState', (run['Nmax'], reo, 'operator-reused'))
+                    if abs(E2 - E) > tol or int(N2) != int(N):
+                        rep.fail('LanczosGroundState', 'operator-modified', dict(classes, op_reused=True),
+                                 dict(det, E_second=float(np.real(E2)), N_second=int(N2)))
                 # independence of N_cache / reortho: all runs of this (case, N_max) agree
                 if ref is None:
                     ref = (E, x, dict(opts))
@@ -177,7 +188,7 @@ def replay_lanczos(rep, light=False, traces=None):
                 return e
             evs, out = hk.record(mk, (), m=case['mE'])
             traces.append((evs, dict(origin=rep.origin, variant=rep.variant, options=opts, engine='LanczosGroundState')))
-    if light or ovs or sigma:
+    if ovs or sigma:
         return
     # ---- FlatLinearOperator: exact action on the sector
     Av = sum((hk.gi(c['lam']) * hk.bv_flat(c['c']) for c in case['comps']), np.zeros(dim, dtype=complex))
@@ -237,21 +248,26 @@ def replay_evo(rep, light=False, traces=None):
                     opts['N_cache'] = nc
                 if sigma:
                     opts['E_shift'] = sigma
-                reuse = bool((rep.variant + run['Nmax']) % 2)      # one engine for all time steps, or a fresh one each
+                reo = False
+                if name == 'LanczosEvolution':
+                    reo = opts['reortho'] = bool((rep.variant // 2 + run['Nmax']) % 2)
+                share = bool((rep.variant + run['Nmax']) % 2)      # one engine for all time steps, or a fresh one for every run
                 eng = None
                 deltas = [('iq', t, 1j * math.pi / 2 * t) for t in (1, 2, 3)] + [('gen', j, d) for j, d in enumerate(GEN_DELTAS)]
                 if light:
                     deltas = deltas[rep.variant % 3::3]
                 for dk, t, delta in deltas:
-                    classes = dict(engine=name, ncache=cls_nc(nc), exhausted=run['exhausted'], shift=bool(sigma), delta=dk,
-                                   herm=herm, reuse=reuse)
                     psi0 = B.vec()
+                    reused = share and eng is not None             # this engine has already been run
+                    classes = dict(engine=name, ncache=cls_nc(nc), exhausted=run['exhausted'], shift=bool(sigma), delta=dk,
+                                   herm=herm, reused=reused, reortho=reo)
                     with warnings.catch_warnings():
                         warnings.simplefilter('ignore')
-                        if eng is None or not reuse:
+                        if eng is None or not share:
                             eng = cls(B.op(), psi0, opts)
                         res, N = eng.run(delta, normalize=False)
-                        resn, Nn = eng.run(delta, normalize=True)
+                        eng2 = eng if share else cls(B.op(), psi0, opts)
+                        resn, Nn = eng2.run(delta, normalize=True)
                     rep.count(name, (run['Nmax'], cls_nc(nc), dk, t))
                     x, xn = B.arr(res), B.arr(resn)
                     scale = B.scale * max(1.0, nv) * math.exp(max(0.0, delta.real) * lam_max)
@@ -345,6 +361,14 @@ def replay_arnoldi(rep, light=False):
                 if len(psis) != nret:
                     bad('number-of-vectors', got=len(psis), expected=nret)
                     continue
+                if len(Es) != numev:
+                    bad('number-of-values', got=len(Es))
+                    continue
+                allkeys = [which_key(which, e + sigma) for e in Es]
+                if numev > nret and any(allkeys[i] > allkeys[i + 1] + tol * (1 + abs(allkeys[i])) for i in range(numev - 1)) \
+                        and not any(allkeys[i] > allkeys[i + 1] + tol * (1 + abs(allkeys[i])) for i in range(nret - 1)):
+                    # fewer Ritz values than num_ev exist: the array is filled up with values that are no Ritz values
+                    rep.fail('Arnoldi', 'order-of-padding', dict(classes, padded=True), dict(det, keys=allkeys, n_ritz=nret))
                 keys = [which_key(which, Es[i] + sigma) for i in range(nret)]
                 if any(keys[i] > keys[i + 1] + tol * (1 + abs(keys[i])) for i in range(nret - 1)):
                     bad('order', keys=keys)
@@ -472,10 +496,14 @@ def replay_case(ctx, case, origin, variant, light, traces):
 KINDS = ('lanczos', 'evo', 'arnoldi', 'gmres', 'gs')
 
 
-def mc_control_flow(ctx):
-    maxn = 6 if ctx.tier == 'quick' else 8
-    res, _, d = tlc.mc('Krylov', hk.cf_cfg(maxn), workers=8)
+def run_control_flow(tier):
+    maxn = 6 if tier == 'quick' else 8
+    res, _, d = tlc.mc('Krylov', hk.cf_cfg(maxn), workers=2, max_heap='2g')
     shutil.rmtree(d, ignore_errors=True)
+    return maxn, res
+
+
+def account_control_flow(ctx, maxn, res):
     ctx.add_mc('Krylov.control-flow(MaxN=%d)' % maxn, res)
     if res.violated:
         ctx.violation(dict(kind='mc', spec='Krylov', part='control-flow', invariant=res.violated[0]),
@@ -486,19 +514,17 @@ def mc_control_flow(ctx):
 
 
 def mc_cfgs(tier):
-    """small catalogues, one exhaustive run per kind of case"""
-    q = tier == 'quick'
-    out = []
-    out.append(('lanczos', dict(Kinds={'lanczos'}, Flavours={'herm'}, Sizes={1, 2}, MaxBlocks=2, MaxDim=2 if q else 3)))
-    out.append(('evo', dict(Kinds={'evo'}, Flavours={'herm', 'gen'}, Sizes={1, 2}, MaxBlocks=2 if q else 2, MaxDim=2 if q else 3,
-                            Charges={0} if q else {0, 1})))
-    out.append(('arnoldi', dict(Kinds={'arnoldi'}, Flavours={'herm', 'gen'}, Sizes={1, 2}, MaxBlocks=2, MaxDim=2 if q else 3,
-                                Charges={0} if q else {0, 1})))
-    out.append(('gmres', dict(Kinds={'gmres'}, Flavours={'herm', 'gen'}, Sizes={1, 2}, MaxBlocks=2, MaxDim=2 if q else 3,
-                              Charges={0} if q else {0, 1})))
-    out.append(('gs', dict(Kinds={'gs'}, Flavours={'herm', 'gen'}, Sizes={2}, MaxBlocks=1, MaxDim=2, Charges={0},
-                           MaxGsRows=2 if q else 3)))
-    return out
+    """small catalogues, exhaustive"""
+    if tier == 'quick':
+        return [('herm', dict(Kinds={'lanczos', 'evo', 'arnoldi', 'gmres'}, Flavours={'herm'}, Charges={0, 1}, Sizes={1, 2},
+                              MaxBlocks=2, MaxDim=2)),
+                ('gen', dict(Kinds={'evo', 'arnoldi', 'gmres', 'gs'}, Flavours={'gen'}, Charges={0}, Sizes={1, 2},
+                             MaxBlocks=1, MaxDim=2, MaxGsRows=2))]
+    return [('herm', dict(Kinds={'lanczos', 'evo', 'arnoldi', 'gmres'}, Flavours={'herm'}, Charges={0, 1}, Sizes={1, 2},
+                          MaxBlocks=2, MaxDim=3, Perms={'id', 'cyc'})),
+            ('gen', dict(Kinds={'evo', 'arnoldi', 'gmres'}, Flavours={'gen'}, Charges={0, 1}, Sizes={1, 2},
+                         MaxBlocks=2, MaxDim=3)),
+            ('gs', dict(Kinds={'gs'}, Flavours={'herm', 'gen'}, Charges={0}, Sizes={2, 3}, MaxBlocks=1, MaxDim=3, MaxGsRows=3))]
 
 
 SIM_BIG = dict(Sizes={1, 2, 3, 4}, Charges={0, 1, 2}, MaxBlocks=4, MaxDim=12, DVals='<-DValsBig', GVals='<-GValsBig',
@@ -509,48 +535,70 @@ SIM_BIG = dict(Sizes={1, 2, 3, 4}, Charges={0, 1, 2}, MaxBlocks=4, MaxDim=12, DV
 def sim_cfgs(tier):
     """(name, constants, traces per worker): large catalogue, random behaviours"""
     q = tier == 'quick'
-    n = 25 if q else 400
     out = []
     # one sector, big blocks: large Krylov dimensions (the rebuild pass of Lanczos needs N > N_cache + 1)
-    out.append(('lanczos-wide', dict(SIM_BIG, Kinds={'lanczos'}, Flavours={'herm'}, Charges={0}, Sizes={3, 4}, MaxBlocks=3), n))
-    out.append(('evo-wide', dict(SIM_BIG, Kinds={'evo'}, Flavours={'herm'}, Charges={0}, Sizes={3, 4}, MaxBlocks=3), n // 2))
-    out.append(('lanczos', dict(SIM_BIG, Kinds={'lanczos'}, Flavours={'herm'}), n))
-    out.append(('mixed', dict(SIM_BIG, Kinds={'evo', 'arnoldi', 'gmres', 'gs'}), 2 * n))
+    out.append(('wide', dict(SIM_BIG, Kinds={'lanczos', 'evo'}, Flavours={'herm'}, Charges={0}, Sizes={3, 4}, MaxBlocks=3),
+                60 if q else 1000))
+    out.append(('mixed', dict(SIM_BIG, Kinds=set(KINDS)), 100 if q else 2500))
     if not q:
-        out.append(('dim60', dict(SIM_BIG, Kinds=set(KINDS), MaxBlocks=15, MaxDim=60), 100))
+        out.append(('dim60', dict(SIM_BIG, Kinds=set(KINDS), MaxBlocks=15, MaxDim=60), 150))
     return out
 
 
-def gen_cases(ctx):
-    """MC + simulate of the planted part; returns list of (origin, case)"""
+def _job_mc(name, kw):
+    res, dump, d = tlc.mc('Krylov', hk.pl_cfg(**kw), dump=True, workers=4, max_heap='2g')
+    cases = [st['pl'] for st in tlaval.iter_dump(dump) if st['pl'].get('stage') == 'case']
+    shutil.rmtree(d, ignore_errors=True)
+    return res, cases
+
+
+def _job_sim(name, kw, num, seed):
+    res, traces, d = tlc.simulate('Krylov', hk.pl_cfg(**kw), num=num, depth=100, seed=seed, workers=2, max_heap='2g')
+    shutil.rmtree(d, ignore_errors=True)
     cases = []
-    for name, kw in mc_cfgs(ctx.tier):
-        res, dump, d = tlc.mc('Krylov', hk.pl_cfg(**kw), dump=True, workers=8)
-        ctx.add_mc('Krylov.planted.%s' % name, res)
+    for i, tr in enumerate(traces):
+        st = tr[-1][1]['pl']
+        if st.get('stage') == 'case':
+            cases.append((i, st))
+    return res, cases
+
+
+def gen_cases(ctx, with_cf=True):
+    """MC of the control-flow machine, MC + simulate of the planted part (the TLC runs are independent and run
+    concurrently); returns list of (origin, case)"""
+    from concurrent.futures import ThreadPoolExecutor
+    jobs = []
+    with ThreadPoolExecutor(max_workers=4) as ex:
+        if with_cf:
+            jobs.append(('cf', None, ex.submit(run_control_flow, ctx.tier)))
+        for name, kw in mc_cfgs(ctx.tier):
+            jobs.append(('mc', name, ex.submit(_job_mc, name, kw)))
+        for j, (name, kw, num) in enumerate(sim_cfgs(ctx.tier)):
+            jobs.append(('sim', name, ex.submit(_job_sim, name, kw, num, ctx.seed * 101 + j + 1)))
+        results = [(typ, name, f.result()) for typ, name, f in jobs]
+    cases = []
+    nmc = nsim = 0
+    for typ, name, out in results:
+        if typ == 'cf':
+            account_control_flow(ctx, *out)
+            continue
+        res, cs = out
+        if typ == 'mc':
+            ctx.add_mc('Krylov.planted.%s' % name, res)
         if res.violated:
-            ctx.violation(dict(kind='mc', spec='Krylov', part='planted', cfg=name, invariant=res.violated[0]),
+            ctx.violation(dict(kind='mc', spec='Krylov', part='planted-' + typ, cfg=name, invariant=res.violated[0]),
                           dict(trace=tlaval.to_jsonable(res.error_trace)))
-        n = 0
-        for st in tlaval.iter_dump(dump):
-            if st['pl'].get('stage') == 'case':
-                n += 1
-                cases.append(('mc-%s-%d' % (name, n), st['pl']))
-        shutil.rmtree(d, ignore_errors=True)
-        if n == 0:
-            raise core.MachineryError('no case generated by MC config %s' % name)
-    ctx.notes['cases_from_mc'] = len(cases)
-    nsim = 0
-    for j, (name, kw, num) in enumerate(sim_cfgs(ctx.tier)):
-        res, traces, d = tlc.simulate('Krylov', hk.pl_cfg(**kw), num=num, depth=100, seed=ctx.seed * 101 + j + 1, workers=4)
-        shutil.rmtree(d, ignore_errors=True)
-        if res.violated:
-            ctx.violation(dict(kind='mc', spec='Krylov', part='planted-simulate', cfg=name, invariant=res.violated[0]),
-                          dict(trace=tlaval.to_jsonable(res.error_trace)))
-        for i, tr in enumerate(traces):
-            st = tr[-1][1]['pl']
-            if st.get('stage') == 'case':
-                nsim += 1
-                cases.append(('sim-%s-%d' % (name, i), st))
+        if typ == 'mc':
+            if not cs:
+                raise core.MachineryError('no case generated by MC config %s' % name)
+            for n, c in enumerate(cs):
+                cases.append(('mc-%s-%d' % (name, n + 1), c))
+            nmc += len(cs)
+        else:
+            for i, c in cs:
+                cases.append(('sim-%s-%d' % (name, i), c))
+            nsim += len(cs)
+    ctx.notes['cases_from_mc'] = nmc
     ctx.notes['cases_from_simulate'] = nsim
     return cases
 
@@ -632,9 +680,7 @@ def check(ctx):
         return
     only = ctx.only
     t0 = time.time()
-    if not only or 'cf' in only:
-        mc_control_flow(ctx)
-    cases = gen_cases(ctx)
+    cases = gen_cases(ctx, with_cf=(not only or 'cf' in only))
     ctx.notes['wall_gen_s'] = round(time.time() - t0, 1)
     rng = random.Random(ctx.seed)
     # quick: every MC case once (light options), simulate cases with the full option grid
@@ -648,6 +694,8 @@ def check(ctx):
                 continue
             variant = rng.randrange(24)
             from_sim = origin.startswith('sim')
+            if ctx.tier == 'quick' and not from_sim and rng.random() < 0.5:
+                continue        # quick: a seeded half of the exhaustive catalogue (thorough: all of it)
             light = (not from_sim) if ctx.tier == 'quick' else False
             want_trace = from_sim or (j % 7 == ctx.seed % 7)
             ok = replay_case(ctx, case, origin, variant, light, traces if want_trace else None)
